@@ -1,0 +1,17 @@
+//go:build verif
+
+package probdist
+
+// VerifTables returns copies of the distribution's tables, taken under the
+// distribution's own lock.  Verification hook (build tag verif); not part of
+// the package API.
+func (w *WeightedDist) VerifTables() (minValue, maxValue int, values []int, weights, prob []float64, alias []int) {
+	w.Lock()
+	defer w.Unlock()
+
+	values = append([]int(nil), w.values...)
+	weights = append([]float64(nil), w.weights...)
+	prob = append([]float64(nil), w.prob...)
+	alias = append([]int(nil), w.alias...)
+	return w.minValue, w.maxValue, values, weights, prob, alias
+}
